@@ -530,7 +530,14 @@ fn lazy_rewrite_body(ch: &Chooser, cfg: &LazyRw) -> Outcome {
         Err(f) => Err(Violation::new(
             format!(
                 "stage=lazy-rewrite source={} {} field={} shape={shape}",
-                if source == Source::Own { "own" } else { "foreign" },
+                // what a single entry point writes for a record does not depend on where the record came from
+                if f.what.contains("output-differs-from-record") {
+                    "any"
+                } else if source == Source::Own {
+                    "own"
+                } else {
+                    "foreign"
+                },
                 f.what.replace(' ', "_").replace("_symptom=", " symptom="),
                 f.field
             ),
@@ -575,7 +582,12 @@ fn lazy_sequence_body(ch: &Chooser) -> Outcome {
     let describe = || format!("record with SEQ \"{}\" ({len} bases) read lazily; sequence().split_at_checked({mid})", String::from_utf8_lossy(&bases));
     ch.desc(|| describe());
     let v = |accessor: &str, side: &str, e: String, o: String| -> Outcome {
-        Err(Violation::new(format!("stage=lazy-sequence accessor={accessor} side={side} symptom=differs-from-bases"), describe(), e, o))
+        Err(Violation::new(
+            format!("stage=lazy-sequence accessor={accessor} view={} symptom=differs-from-bases", if side == "whole" { "sequence" } else { "subsequence" }),
+            describe(),
+            format!("{side}: {e}"),
+            o,
+        ))
     };
     let header = sam::Header::default();
     let g = GRec { seq: bases.clone(), ..GRec::unmapped() };
